@@ -21,8 +21,11 @@ Verdict(r) ==
   IN <<op, j, IF j THEN InEnvelopeX(ps, src, cls, r.out) ELSE ~(op /\ r.outcome = "hostpanic")>>
 RecOk(r) == Verdict(r)[3]
 \* signature: the root cause as far as the reference can see it, not the input
-Sig(r) == IF r.outcome = "hostpanic" THEN [fam |-> "cut", cause |-> "host-panic", detail |-> r.errclass]
-          ELSE LET c == Cause(PiecesOf(r), r.out) IN [fam |-> "cut", cause |-> c[1], detail |-> c[2]]
+Sig(r) == IF r.outcome = "hostpanic"
+          THEN LET ps == PiecesOf(r) src == Src(ps) cls == Cls(ps) IN
+               [fam |-> "cut", cause |-> "host-panic", detail |-> r.errclass,
+                ctx |-> IF AfterML(ps, src, cls, 1, 0) # {} THEN "space-after-multi-line-statement" ELSE "other"]
+          ELSE LET c == Cause(PiecesOf(r), r.out) IN [fam |-> "cut", cause |-> c[1], detail |-> c[2], ctx |-> "-"]
 
 \* model drift (diagnostic): a model run whose cuts overlap has no output (the real build panics)
 ModelDiffers(toks, variant, out) == LET fin == PRun(PS0(Len(toks)), toks, 1, variant) IN
